@@ -5,7 +5,7 @@
 Require Extraction.
 Require Import ExtrOcamlBasic.
 From BBF Require Import Base.Prelude Base.Names Base.Bits Spec.Sem
-     Model.Expr Model.Table Model.LibBdd Model.Bdd Model.Prog.
+     Model.Expr Model.Table Model.LibBdd Model.Bdd Model.Lexer Model.Parser Model.Display Model.Prog.
 
 Extraction Language OCaml.
 Extraction "model.ml"
@@ -13,6 +13,7 @@ Extraction "model.ml"
   obj_inputs obj_tv obj_eval_default obj_eval_checked obj_equiv obj_implied_by
   obj_essential obj_degree obj_essential_degree obj_domain obj_image obj_relation
   obj_support obj_weight obj_sat_point b_node_count
-  is_nnf is_cnf is_dnf
+  is_nnf is_cnf is_dnf literals sem
+  tokenize from_str_full parse_tokens display
   bf_tv spec_essential spec_support spec_equiv spec_implies env_of
   N.of_nat N.to_nat.
